@@ -70,6 +70,10 @@ CLAIMED = {
   "Runtime monitoring in crash-isolated worker processes: hostile, generated and mutated request texts are executed through ten string entry points (execute_sparql_query, HTTP GET/POST/form query adapters, execute_sparql_update, execute_update, handle_update, HTTP update adapters, legacy entry) against six database states, with a lexical snapshot of quads and graph catalog before and after every request; query entry points must never change data and must refuse updates, requests the parser rejects must return an error and leave data unchanged, and nothing may panic or kill the process.",
   "Trusted: kvk::ds::snapshot, the worker protocol. One recorded finding (neural-relation predictions stored through the query endpoint) is listed in known_findings.json.",
   "runtime monitor: before/after dataset snapshots around hostile requests in crash-isolated workers", '4/C17'),
+ 'C18': ('exploration',
+  "Runtime monitoring: Reasoner::backward_chaining is run on generated programs (20 rule templates x 12 goal shapes x 14 goal-variable namings incl. the names the engine generates internally, chains with minimal derivation heights 0..13, numeric filters, random safe programs) and every answer, applied to the goal, must be a fact of the least model (kvcore::mdatalog), while every model fact matching the goal with minimal derivation height <= 8 must be returned; each case is also run with goal variables renamed to names the engine can never generate and with shuffled fact / rule order, and the three answer sets must coincide.",
+  "Trusted: kvcore::mdatalog (heights = first naive round). Positive safe rules only; completeness demanded for height <= 8 (a margin below the documented MAX_DEPTH of 10).",
+  "runtime monitor: least-model oracle with derivation heights, goal-renaming and order differential", '4/C18'),
  'C19': ('exploration',
   "Runtime monitoring: query_with_repairs and repair-aware materialisation are executed on thousands of generated (facts, denial constraints, goal) cases, each repeated in fresh reasoners (per-instance hash seeds change the subset search order), and every returned answer set is compared with an oracle that enumerates all 2^n subsets, keeps the subset-maximal consistent ones and intersects the answers; the materialised store must be consistent and entailed.",
   "Trusted: the backtracking matcher of kvcore::mdatalog, subset enumeration (<= 10 facts).",
